@@ -521,4 +521,18 @@ def exCrossRekey : Option (HSt × HSt) :=
 example : exKids exCrossRekey = some ([([7,7,7,7], [8,8,8,8], 3)], [([8,8,8,8], [7,7,7,7], 3)]) := by decide +kernel
 example : exStates exCrossRekey = some ([10, 10], [false, false]) := by decide +kernel
 
+/-- both ends delete a CHILD_SA at the same time — different ones (`ca'`, `cb'`: their images at the other end): each end removes the one
+    the other names when the request arrives and its own when the answer arrives; both are gone at both ends, which agree again -/
+theorem c09_concrete_crossing_deletes_of_different_child_sas (ca cb ca' cb' : Child) (a b : HSt) (h : Agree a b)
+    (ha : ca ∈ a.me.ext.kids) (hb : cb ∈ b.me.ext.kids) (ha' : ca' ∈ b.me.ext.kids) (hb' : cb' ∈ a.me.ext.kids)
+    (hva : ca.view = ca'.peerView) (hvb : cb.view = cb'.peerView) (hdiff : ca.inSpi ≠ cb'.inSpi) :
+    ∃ a3 b3, crossingDeleteExchange ca cb a b = some (a3, b3) ∧ Agree a3 b3 ∧
+      a3.me.ext.kids = removeKid (removeKid a.me.ext.kids cb') ca ∧ b3.me.ext.kids = removeKid (removeKid b.me.ext.kids ca') cb :=
+  crossingDeleteDifferent_agree ca cb ca' cb' a b h ha hb ha' hb' hva hvb hdiff
+
+/-- non-vacuity: the two ends of the first example (two CHILD_SAs, coinciding SPI values): `a` deletes its first while `b` deletes its
+    second (the image of `a`'s second) -/
+example : (crossingDeleteExchange exKa1 exKb2 exA exB).map (fun x => (x.1.me.ext.kids, x.2.me.ext.kids)) = some ([], []) := by
+  decide +kernel
+
 end PyIkev2.Props.C09
